@@ -20,10 +20,9 @@ CLAIMED = {
         text="Theorem C11_wellformed (induction over every accepted non-empty datagram list; lengths, commands, addresses, wkc presets, index and ethertype "
              "universally quantified): the assembled frame is read back by an independent ETG.1000.4 parser as exactly the identification datagram plus the "
              "given datagrams, data at the positions append reported, header length = payload, padded to 46, never above MAXSIZE; C11_rejects characterises "
-             "rejection. Constants (MAXSIZE, header sizes, count limit, padding) are regenerated from the source each run. The sterile copy is covered by the "
-             "correspondence and the oracle (differs only in NOP command bytes of write datagrams), not yet by a theorem.",
-        note=TB + "Modelled: Packet.append/assemble/full, SterilePacket.append_writer/sterile (Ecat/Frame.v); struct '<' formats. Sterile-copy statement is "
-             "checked by differential testing only (partial).",
+             "rejection. Constants (MAXSIZE, header sizes, count limit, padding) are regenerated from the source each run. C11_sterile: the sterile copy equals the "
+             "frame assembled from the same datagrams with NOP in place of every write command.",
+        note=TB + "Modelled: Packet.append/assemble/full, SterilePacket.append_writer/sterile (Ecat/Frame.v); struct '<' formats.",
         technique="Coq proof against an independent frame parser + differential correspondence",
         ref="7/C11"),
     "C20": dict(
